@@ -198,6 +198,11 @@ impl<D: InternalStringType> JsStringBuilder<D> {
     /// Caller should ensure the capacity is large enough to hold elements.
     #[inline]
     pub const unsafe fn extend_from_slice_unchecked(&mut self, v: &[D::Byte]) {
+        // Nothing to copy. This also keeps us from offsetting the dangling pointer of a
+        // builder that has not allocated yet (`self.data()` is only valid after an allocation).
+        if v.is_empty() {
+            return;
+        }
         // SAFETY:
         // 1. Caller must ensure `self.len() + v.len() <= self.capacity()` so the destination pointer is in-bounds.
         // 2. Pointers are aligned: `v` is aligned by Rust's slice guarantee; `self.data()` is aligned because the allocation layout was padded to `D::Byte`'s alignment.
